@@ -81,6 +81,8 @@ static bool layout_ok() {
 static std::map<std::string, u64> cls;        // "<op> <hb before> <bits flipped | L>" -> count
 static u64 n_calls = 0, n_inc = 0, n_dec = 0, n_scen = 0, n_oracle_checks = 0;
 static u64 max_count_seen = 0;
+static const u64 CALL_CAP = 80000000ULL;      // no scenario family comes near; guards against a runaway generator
+static void cap_check() { if (n_calls > CALL_CAP) { fprintf(stderr, "sweep: call cap exceeded (generator bug)\n"); exit(3); } }
 static u64 prefix_n = 0, n_prefix_scen = 0;   // smallest n whose first n slots are not {1..n}; scenarios showing it
 static std::string prefix_slots, prefix_scen;
 
@@ -167,7 +169,7 @@ struct Scenario {
 
     void inc() {
         u64 count_before = nlive; ++nlive;
-        note_op('i'); classify('i', count_before); ++n_calls; ++n_inc;
+        note_op('i'); classify('i', count_before); ++n_calls; ++n_inc; cap_check();
         State before = observe(c);
         u64 slot = c.inc();
         line('i', slot);
@@ -214,7 +216,7 @@ struct Scenario {
     }
     void dec() {
         u64 count_before = nlive; --nlive;
-        note_op('d'); classify('d', count_before); ++n_calls; ++n_dec; inc_only = false;
+        note_op('d'); classify('d', count_before); ++n_calls; ++n_dec; inc_only = false; cap_check();
         u64 slot = c.dec();
         line('d', slot);
         if (!failed) {
@@ -278,8 +280,8 @@ static void scen_walk(Rng& rng, int id, u64 len, int kind, int maxlevel) {
             }
         }
     } else {                                                // hover around a level boundary 2^k
-        int k = 1 + (int)rng.below((u64)maxlevel);
-        u64 target = (1ULL << k) - 1 - rng.below(3);
+        int k = 2 + (int)rng.below((u64)(maxlevel - 1));     // 2..maxlevel
+        u64 target = (1ULL << k) - 1 - rng.below(3);         // >= 1
         while (s.count() < target) s.inc();
         for (u64 i = 0; i < len; ++i) {
             u64 c = s.count(); bool inc;
@@ -334,7 +336,7 @@ int main(int argc, char** argv) {
         Rng rng(seed ^ 0xC26C26C26ULL);
         scen_exhaustive(thorough ? 20 : 16);                 // exhaustively for small counts (all shorter ones are prefixes)
         scen_ramp(thorough ? (1ULL << 20) : (1ULL << 16));   // every n up to the bound, then all the way down
-        int nw = thorough ? 240 : 60; u64 len = thorough ? 6000 : 3000; int maxlevel = thorough ? 20 : 16;
+        int nw = thorough ? 240 : 60; u64 len = thorough ? 6000 : 3000; int maxlevel = 16;   // boundaries of the levels above 16 are crossed by the teleport scenarios
         for (int w = 0; w < nw; ++w) scen_walk(rng, w, len, w % 3, maxlevel);
         bool lay = layout_ok();
         if (lay) scen_teleport(rng, thorough);
